@@ -297,6 +297,60 @@ func extractC07() *lean {
 		return true
 	})
 	l.def("grpcLimitOptions", "List String", leanStrList(limitOpts), limitOpts)
+	// network/dag/state.go Add: the add mutex is locked once and released by a top-level `defer unlock()` (through a sync.Once,
+	// also registered as AfterCommit hook): every exit of Add - also a Write that fails before a transaction exists - releases it
+	_, stateF := parseFile("network/dag/state.go")
+	var addDefers, addHooks, addLockSeq []string
+	addUnlockDef := "MISSING"
+	directUnlocks := 0
+	if fd := funcDecl(stateF, "Add"); fd != nil {
+		locked := false
+		for _, st := range fd.Body.List {
+			src := c07Src(st)
+			if src == "s.addMutex.Lock()" {
+				locked = true
+			}
+			if ds, ok := st.(*ast.DeferStmt); ok {
+				addDefers = append(addDefers, c07Src(ds.Call))
+			}
+			if locked {
+				if len(src) > 40 {
+					src = src[:40]
+				}
+				addLockSeq = append(addLockSeq, src)
+			}
+			if as, ok := st.(*ast.AssignStmt); ok && len(as.Lhs) == 1 && exprString(as.Lhs[0]) == "unlock" {
+				addUnlockDef = c07Src(as.Rhs[0])
+			}
+		}
+		ast.Inspect(fd, func(n ast.Node) bool {
+			if se, ok := n.(*ast.SelectorExpr); ok && exprString(se) == "s.addMutex.Unlock" {
+				directUnlocks++
+			}
+			if c, ok := n.(*ast.CallExpr); ok && exprString(c.Fun) == "s.db.Write" {
+				for _, a := range c.Args[2:] {
+					h := c07Src(a)
+					if oc, ok := a.(*ast.CallExpr); ok {
+						h = exprString(oc.Fun)
+						if len(oc.Args) == 1 {
+							if id, ok := oc.Args[0].(*ast.Ident); ok {
+								h += "(" + id.Name + ")"
+							} else {
+								h += "(func)"
+							}
+						}
+					}
+					addHooks = append(addHooks, h)
+				}
+			}
+			return true
+		})
+	}
+	l.def("addTopLevelDefers", "List String", leanStrList(addDefers), addDefers)
+	l.def("addAfterLock", "List String", leanStrList(addLockSeq), addLockSeq)
+	l.def("addUnlockDef", "String", fmt.Sprintf("%q", addUnlockDef), addUnlockDef)
+	l.def("addWriteHooks", "List String", leanStrList(addHooks), addHooks)
+	l.def("addDirectUnlockRefs", "Nat", fmt.Sprint(directUnlocks), directUnlocks)
 	l.def("dispatch", "List String", leanStrList(dispatch), dispatch)
 	_, protoF := parseFile("network/transport/v2/protocol.go")
 	listFn := "MISSING"
